@@ -1,4 +1,149 @@
-import AkVerif.Lemmas.LLComplete
-/-! # C02 (under construction) -/
+import AkVerif.Lemmas.LLCompleteTop
+import AkVerif.Lemmas.LLFactAll
+import AkVerif.Lemmas.LLTable2
+import AkVerif.Lemmas.LLC03
+/-!
+# C02 — conflict-free (LL(1)) grammars are parsed exactly
+
+Property theorems only.  Model: `LL.nullables`, `LL.firstSets`, `LL.followSets`, `LL.mkTable`,
+`LL.isAmbiguous` (iterated as the code iterates them), `LL.construct`, `LL.Parser.parse`.
+`InLang terms U start w`: the token list `w` (names and values) is the leaf sequence of a
+derivation tree of the dictionary `U` rooted at `start`.
+-/
 namespace C02
+open LL Ak
+
+/-- **The computed sets are closed** and the table is built from them: whenever the three fixpoint
+loops and `mkTable` succeed and the table is conflict-free, the closure conditions the completeness
+proof needs hold (`Closed`): a rule with an all-nullable right-hand side makes its symbol nullable;
+FIRST of a rule's right-hand side is in FIRST of its symbol; for `A → α X β`: FIRST(β) ⊆ FOLLOW(X)
+and, β nullable, FOLLOW(A) ⊆ FOLLOW(X); `$END$ ∈ FOLLOW(start)`; a rule predicted for `(X, t)` is
+the only entry of the table there.  Read off the exits of the loops (a pass that changes nothing). -/
+theorem sets_closed {σ : Type} [DecidableEq σ] (G : Prods σ) (terms nulls : List σ) (first follow : SetMap σ)
+    (T : Table σ) (start endS : σ) (suffix : List σ)
+    (hnd : (G.map (·.1)).Nodup) (hdisj : ∀ k ∈ G.map (·.1), k ∉ terms)
+    (hN : nullables G = .ok nulls) (hF : firstSets terms nulls G = .ok first)
+    (hW : followSets terms nulls first G start endS = .ok follow)
+    (hT : mkTable terms nulls first follow G = .ok T) (hamb : isAmbiguous T = false) :
+    Closed (cfgOf terms T suffix) { prods := gramRules G } (setsOf nulls first follow)
+      ∧ (setsOf nulls first follow).W start endS = true :=
+  model_closed suffix hnd hdisj hN hF hW hT hamb
+
+/-- **LL(1) completeness of the parse loop** (generic): with closed sets and a conflict-free table
+built from them, every derivation tree `d` of the grammar rooted at the start symbol is accepted:
+`run` on `yield d ++ [$END$]` returns a tree — the machine walks down `d` and never rolls back. -/
+theorem det_complete {σ : Type} [DecidableEq σ] (G : Cfg σ) (P : Gram σ) (S : Sets σ) (hC : Closed G P S)
+    (init start endS : σ) (endTok : Tok σ) (hend : endTok.name = endS)
+    (hendT : G.isTerm endS = true) (hstartW : S.W start endS = true)
+    (d : Tree σ) (hd : PValid G P d) (hname : d.name = start) (hnt : G.isTerm start = false) :
+    ∃ k x, ∀ fuel, k ≤ fuel →
+      run G (d.yield ++ [endTok]) fuel (initStack init start endS) = .ok x :=
+  LL.det_complete hC init start endS endTok hend hendT hstartW d hd hname hnt
+
+/-- **Factorisation preserves the language** (with and without the smart undo): the user's
+dictionary and the factorised one derive the same token lists from every non-helper symbol. -/
+theorem fact_lang_eq (terms : List Sym) (U G : Prods Sym) (S : List Sym) (smart : Bool)
+    (hU : UserWF U) (hterm : ∀ t ∈ terms, t.path = []) (h : factorize terms U smart = .ok (G, S))
+    (terms' : List Sym) (hdisj : ∀ k ∈ pkeys G, k ∉ terms') (start : Sym) (hs : start ∉ S)
+    (w : List (Tok Sym)) : InLang terms' U start w ↔ InLangG terms' G start w :=
+  lang_eq (factRelD_factorize hU hterm h).1 hdisj hs w
+
+/-- **Exactness**: if `is_ambiguous()` is False, `parse` accepts a text iff its token list is a
+sentence of the *user's* grammar.  (Hypotheses on the input as in `C01.parse_valid`.) -/
+theorem exact (inp : CtorIn) (P : Parser) (hP : construct inp = .ok P)
+    (hrhs : NoDunderRhs inp.prods) (hstart : inp.start ∈ inp.prods.map (·.1))
+    (hamb : isAmbiguous P.table = false) (raw : List (List Char × List Char))
+    (hEnd : ∀ tok ∈ (P.tokens raw).dropLast, tok.name ≠ endSym) :
+    (∃ fuel t, P.parse raw fuel = .ok t) ↔
+      InLang P.terminals P.userProds P.start (P.tokens raw).dropLast := by
+  have hB := construct_built hP
+  obtain ⟨hD, hnd⟩ := factRelD_of_built hB hrhs
+  exact exact_of_built hB hD hnd hamb (start_user_of_built hB hrhs hstart) raw hEnd
+
+/-- **Every non-sentence raises `ParsingError`** (ambiguous table or not): for all sufficiently
+large fuel the answer is `ParsingError` — never a tree, never a loop, never another error. -/
+theorem reject_raises (inp : CtorIn) (P : Parser) (hP : construct inp = .ok P)
+    (hrhs : NoDunderRhs inp.prods) (hstart : inp.start ∈ inp.prods.map (·.1))
+    (raw : List (List Char × List Char))
+    (hEnd : ∀ tok ∈ (P.tokens raw).dropLast, tok.name ≠ endSym)
+    (hnot : ¬ InLang P.terminals P.userProds P.start (P.tokens raw).dropLast) :
+    ∃ k, ∀ fuel, k ≤ fuel → P.parse raw fuel = .error .parsingError := by
+  have hB := construct_built hP
+  obtain ⟨hD, hnd⟩ := factRelD_of_built hB hrhs
+  exact reject_of_built hB hD hnd (start_user_of_built hB hrhs hstart) raw hEnd hnot
+
+/-- **Identically for both `smart_factorization` settings**: two parsers built from the same
+arguments except `smart_factorization`, both reporting no ambiguity, accept the same texts. -/
+theorem smart_indep (inp : CtorIn) (P1 P2 : Parser)
+    (h1 : construct { inp with smart := true } = .ok P1) (h2 : construct { inp with smart := false } = .ok P2)
+    (hrhs : NoDunderRhs inp.prods) (hstart : inp.start ∈ inp.prods.map (·.1))
+    (ha1 : isAmbiguous P1.table = false) (ha2 : isAmbiguous P2.table = false)
+    (raw : List (List Char × List Char))
+    (hEnd : ∀ tok ∈ (P1.tokens raw).dropLast, tok.name ≠ endSym) :
+    (∃ fuel t, P1.parse raw fuel = .ok t) ↔ (∃ fuel t, P2.parse raw fuel = .ok t) := by
+  have b1 := construct_built h1
+  have b2 := construct_built h2
+  have eU : P1.userProds = P2.userProds := by
+    have := b1.hU; rw [show ({ inp with smart := true } : CtorIn).prods = inp.prods from rfl] at this
+    have t2 := b2.hU; rw [show ({ inp with smart := false } : CtorIn).prods = inp.prods from rfl] at t2
+    rw [this] at t2; injection t2
+  have eT : P1.terminals = P2.terminals := by rw [b1.hterms, b2.hterms]; rfl
+  have eS : P1.start = P2.start := by rw [b1.hstart, b2.hstart]
+  have esk : P1.skip = P2.skip := by
+    have := b1.hskip
+    have t2 := b2.hskip
+    rw [show skipSet ({ inp with smart := true } : CtorIn) (tokenNames { inp with smart := true }) =
+      skipSet ({ inp with smart := false } : CtorIn) (tokenNames { inp with smart := false }) from rfl] at this
+    rw [this] at t2; injection t2
+  have etok : P1.tokens raw = P2.tokens raw := by
+    have er : P1.rename = P2.rename := by
+      funext r; simp [Parser.rename, b1.hsyn, b2.hsyn, b1.hkw, b2.hkw]
+    simp [Parser.tokens, er, esk]
+  rw [exact _ P1 h1 hrhs hstart ha1 raw hEnd, exact _ P2 h2 hrhs hstart ha2 raw (etok ▸ hEnd),
+    eU, eT, eS, etok]
+
+/-- **LL(1)-as-written ⟹ not ambiguous — partial.**
+Full statement (kept visible, *not* proved): "if for every symbol of the *user's* grammar the
+predict sets of its alternatives, computed from the least nullable/FIRST/FOLLOW sets, are pairwise
+disjoint, then `is_ambiguous()` is False (both `smart_factorization` values)".
+Proved here: `is_ambiguous()` is False **iff** for every key of the *factorised* dictionary the predict
+sets of its rules **as the constructor computes them** (`startSyms` from the computed sets) are
+pairwise disjoint — i.e. the conflict report is exact w.r.t. the computed sets of the factorised
+grammar.  Missing for the full statement: (1) the computed sets are the least sets (only closure and,
+for nullables, soundness are proved), (2) disjointness of the user's alternatives implies disjointness
+for the rules of the factorised dictionary (a group rule's predict set is the union of its
+members').  This clause is therefore backed by the correspondence and the oracle (independent
+FIRST/FOLLOW computation on the user's grammar). -/
+theorem ll1_as_written_unambiguous_partial (inp : CtorIn) (P : Parser) (hP : construct inp = .ok P) :
+    isAmbiguous P.table = false ↔
+      ∀ A rules, (A, rules) ∈ P.prods →
+        rules.Pairwise (PredDisjoint P.terminals P.nullables P.first P.follow A) := by
+  have hB := construct_built hP
+  exact not_ambiguous_iff_disjoint (built_struct hB).1 hB.hT
+
+/-! Non-vacuity: `E → a E b | c` is LL(1): the constructor reports no ambiguity, `a a c b b` is
+accepted, `a c` is rejected with `ParsingError` (kernel evaluation, both settings agree). -/
+def exInp (smart : Bool) : CtorIn :=
+  { groups := ["SPACE".toList, "a".toList, "b".toList, "c".toList], syn := [], kw := [], skip := none,
+    start := "E".toList,
+    prods := [("E".toList, [["a".toList, "E".toList, "b".toList], ["c".toList]])],
+    smart := smart }
+
+def toks (s : String) : List (List Char × List Char) := s.toList.map fun c => ([c], [c])
+
+def outcome (smart : Bool) (s : String) : Option Bool :=
+  match construct (exInp smart) with
+  | .ok P =>
+    if isAmbiguous P.table then none else
+    match P.parse (toks s) 10000 with
+    | .ok _ => some true
+    | .error .parsingError => some false
+    | .error _ => none
+  | .error _ => none
+
+example : outcome true "aacbb" = some true := by decide +kernel
+example : outcome false "aacbb" = some true := by decide +kernel
+example : outcome true "ac" = some false := by decide +kernel
+example : outcome false "acbb" = some false := by decide +kernel
+
 end C02
